@@ -66,6 +66,8 @@ pub fn generate(prop: &str, tier: &str, seed: u64, outdir: &str) {
                         out.req("fault_sweep", format!("@fault_sweep {n} {kind} {mode}"));
                     }
                 }
+                // the medium's own flush() failing
+                out.req("fault_sweep", format!("@fault_sweep {n} flush transient"));
             }
             let _ = &mut rng;
         }
@@ -1047,6 +1049,23 @@ fn gen_long_strings_directed(out: &mut Out, rng: &mut Rng, thorough: bool) {
             out.req("reopen", format!("reopen {}", rng.pick(&crate::hist::CLOSE_MODES)));
             out.req("snapshot", "snapshot".into());
             out.req("raw", "raw".into());
+            // the long text stops being long after it has been saved (deleted, replaced by a short
+            // one, or re-encoded below 64 KiB by another code page): the saved pool gets shorter
+            match (case + two_byte as usize) % 3 {
+                0 => out.req("delete", format!("delete {t} eq C{k} I2")),
+                1 => out.req("update", format!("update {t} 1 {sc} S{} eq C{k} I2", hex_of_str("short now"))),
+                _ => {
+                    if two_byte {
+                        out.req("set_db_cp", "set_db_cp Windows1252".into());
+                    } else {
+                        out.req("drop_table", format!("drop_table {t}"));
+                    }
+                }
+            }
+            out.req("snapshot", "snapshot".into());
+            out.req("reopen", format!("reopen {}", crate::hist::CLOSE_MODES[(case + 1) % 3]));
+            out.req("snapshot", "snapshot".into());
+            out.req("raw", "raw".into());
         }
     }
     // a multi-byte character across each 1 KiB boundary of the encoder's chunk
@@ -1221,6 +1240,16 @@ fn c12_cond(rng: &mut Rng, names: &[String]) -> E {
     }
     let a = E::Col(rng.pick(names).clone());
     let b = if rng.chance(1, 2) { E::Col(rng.pick(names).clone()) } else { E::Lit(rng.pick(&[V::Int(1), V::Int(2), V::Null, V::Str("x".into())]).clone()) };
+    if rng.chance(1, 6) {
+        // a condition that is no comparison: its value is whatever the expression yields (a bare
+        // column, a difference, a flag mask), true when it is not zero / null / the empty string
+        return match rng.below(4) {
+            0 => a,
+            1 => E::Bin(*rng.pick(&["sub", "band", "bxor", "add", "mul"]), Box::new(a), Box::new(b)),
+            2 => E::Un("neg", Box::new(a)),
+            _ => E::Lit(rng.pick(&[V::Int(2), V::Int(-1), V::Int(0), V::Null, V::Str("x".into()), V::Str("".into())]).clone()),
+        };
+    }
     let op = *rng.pick(&["eq", "ne", "lt", "le", "gt", "ge"]);
     let base = E::Bin(op, Box::new(a.clone()), Box::new(b));
     match rng.below(5) {
@@ -1459,9 +1488,53 @@ fn gen_c06(out: &mut Out, rng: &mut Rng, thorough: bool) {
             out.req("snapshot", "snapshot".into());
         }
     }
+    let cats: Vec<&'static str> = CATEGORIES.iter().map(|c| c.0).collect();
+    // every category x width {0, 1, 255, 256} x every combination of the three flags, on a string
+    // column of its own; and every flag combination on the two integer types
+    {
+        let mut count = 0usize;
+        let mut emit = |out: &mut Out, rng: &mut Rng, c: ColDef| {
+            if count % 48 == 0 {
+                out.req("new", format!("new {}", (count / 48) % 3));
+            }
+            let mut k = ColDef::new("K", CT::I16);
+            k.key = true;
+            out.req("create_table", format!("create_table {} {} {}", hex_of_str(&format!("F{}", count % 48)), k.tok(), c.tok()));
+            // the flagged column alone (it is the only key, or there is none)
+            out.req("create_table", format!("create_table {} {}", hex_of_str(&format!("G{}", count % 48)), c.tok()));
+            count += 1;
+            if count % 48 == 0 {
+                out.req("snapshot", "snapshot".into());
+                out.req("reopen", format!("reopen {}", rng.pick(&crate::hist::CLOSE_MODES)));
+                out.req("snapshot", "snapshot".into());
+            }
+        };
+        for flags in 0..8u32 {
+            for ct in [CT::I16, CT::I32] {
+                let mut c = ColDef::new("X", ct);
+                c.localizable = flags & 1 != 0;
+                c.nullable = flags & 2 != 0;
+                c.key = flags & 4 != 0;
+                emit(out, rng, c);
+            }
+            for cat in std::iter::once(None).chain(cats.iter().map(|c| Some(*c))) {
+                for w in [0usize, 1, 255, 256] {
+                    let mut c = ColDef::new("X", CT::Str(w));
+                    c.localizable = flags & 1 != 0;
+                    c.nullable = flags & 2 != 0;
+                    c.key = flags & 4 != 0;
+                    c.cat = cat;
+                    emit(out, rng, c);
+                }
+            }
+        }
+        out.req("snapshot", "snapshot".into());
+        out.req("reopen", "reopen flush".into());
+        out.req("snapshot", "snapshot".into());
+        out.exhaustive.push("every category (and none) x string width {0,1,255,256} x every combination of localizable/nullable/primary-key, plus both integer types x every flag combination: created, reported, saved, reopened".into());
+    }
     let n = if thorough { 20000 } else { 1500 };
     let widths = [0usize, 1, 2, 64, 72, 254, 255, 256, 257, 511, 512, 4095, 4096, 65535, 65536];
-    let cats: Vec<&'static str> = CATEGORIES.iter().map(|c| c.0).collect();
     let mut tno = 0;
     for i in 0..n {
         if i % 40 == 0 {
@@ -1697,7 +1770,8 @@ fn gen_c16(out: &mut Out, rng: &mut Rng, thorough: bool) {
                 _ => out.req("ro_select", format!("select SEL 1 {} - T {}", hex_of_str("K"), hex_of_str("A"))),
             }
         }
-        out.req("readonly_close", format!("@readonly_close {}", rng.pick(&crate::hist::CLOSE_MODES)));
+        let ff = if rng.chance(1, 4) { "ff:" } else { "" };
+        out.req("readonly_close", format!("@readonly_close {ff}{}", rng.pick(&crate::hist::CLOSE_MODES)));
     }
 }
 
@@ -1788,13 +1862,36 @@ fn gen_stream_sessions(out: &mut Out, rng: &mut Rng, thorough: bool) {
     let names = ["logo", "Icon.1", "bin data", "x", "\u{4e2d}\u{6587}", "A_very_long_stream_name_012345", "__init__", "xy__z", "__", "a.b_c", "UPPER", "upper", "N1", "n1", "s p a c e", "\u{5}Odd", "t\u{4840}t"];
     let bad = ["", "a/b", "a\\b", "a:b", "a!b", "\u{4840}T", "\u{3800}", "\u{47ff}x", "this_name_is_far_too_long_to_fit_into_a_compound_file_directory_entry", "\u{5}SummaryInformation", "_StringPool", "."];
     let sizes = [0usize, 1, 26, 63, 64, 65, 4095, 4096, 4097, 6000, 8192, 9000];
+    // names far beyond the limit, with characters of every UTF-8 width at every byte alignment
+    // (whatever a call does with a refused name -- quote it, cut it -- it must not panic)
+    out.req("new", "new 0".into());
+    for pre in 0..5usize {
+        for ch in ['\u{e9}', '\u{65e5}', '\u{1f600}'] {
+            for reps in [20usize, 90, 150, 400] {
+                let name = format!("{}{}", &"Icon."[..pre], std::iter::repeat(ch).take(reps).collect::<String>());
+                let h = hex_of_str(&name);
+                out.req("long_name", format!("stream_write {h} {}", hex_of_bytes(b"data")));
+                out.req("long_name", format!("stream_read {h}"));
+                out.req("long_name", format!("stream_remove {h}"));
+                out.req("long_name", format!("has_stream {h}"));
+            }
+        }
+    }
+    out.req("streams", "streams".into());
     for _ in 0..n {
         out.req("new", format!("new {}", rng.below(3)));
         if rng.chance(1, 3) {
             out.req("create_table", format!("create_table {} 4b:i16:K:-:-:-:- 56:s0:N:-:-:-:-", hex_of_str("T")));
         }
         for _ in 0..(3 + rng.below(14)) {
-            let name = if rng.chance(1, 8) { rng.pick(&bad).to_string() } else { rng.pick(&names).to_string() };
+            let name = if rng.chance(1, 8) {
+                rng.pick(&bad).to_string()
+            } else if rng.chance(1, 25) {
+                let len = 30 + rng.below(300) as usize;
+                (0..len).map(|_| *rng.pick(&['a', '.', '\u{e9}', '\u{65e5}', '\u{1f600}', 'Z'])).collect()
+            } else {
+                rng.pick(&names).to_string()
+            };
             let h = hex_of_str(&name);
             match rng.below(12) {
                 0 | 1 | 2 | 3 | 4 => {
@@ -2009,6 +2106,37 @@ fn gen_c09(out: &mut Out, rng: &mut Rng, thorough: bool) {
     for b in &bases {
         out.req("load_valid", format!("load 0 {}", entries_tok(b)));
         battery(out, &["Items", "T", "_Validation"]);
+    }
+    // summary texts with a multi-byte character, or a byte that is no UTF-8 at all, at every
+    // offset: whatever a getter slices, trims or splits must cope with where characters begin
+    {
+        use crate::decode::{write_propset, PVal, PropLayout};
+        let tails: [&[u8]; 5] = [b"\xc3\xa9", b"\xe6\x97\xa5", b"\xf0\x9f\x98\x80", b"\xff", b"\xc3"];
+        let max = if thorough { 300usize } else { 72 };
+        for off in 0..max {
+            for (j, tail) in tails.iter().enumerate() {
+                if !thorough && off > 48 && j > 1 {
+                    continue;
+                }
+                let mut text: Vec<u8> = b"{34AB5C53-9B30-4E14-AEF0-2C1C7BA826C0};x64;1033,1041,".iter().cycle().take(off).cloned().collect();
+                text.extend_from_slice(tail);
+                text.extend_from_slice(b"0123456789}");
+                let mut props: Vec<(u32, PVal)> = vec![(1, PVal::I2(if j % 2 == 0 { -535i16 } else { 1252 }))];
+                for id in [2u32, 3, 4, 6, 7, 9, 18] {
+                    props.push((id, PVal::Str(text.clone())));
+                }
+                let np = props.len();
+                let pl = PropLayout { version: 0, os: 2, os_version: 10, section_gap: 0, table_order: (0..np).collect(), value_order: (0..np).collect(), gaps: vec![0; np] };
+                let mut e = bases[0].clone();
+                let data = write_propset(&props, &pl);
+                match e.iter_mut().find(|x| x.0.starts_with('\u{5}')) {
+                    Some(x) => x.1 = data,
+                    None => e.push(("\u{5}SummaryInformation".to_string(), data)),
+                }
+                out.req("summary_offsets", format!("load 0 {}", entries_tok(&e)));
+                out.req("battery", "snapshot".into());
+            }
+        }
     }
     out.req("wrong_clsid", format!("load none {}", entries_tok(&bases[0])));
     out.req("battery", "snapshot".into());
